@@ -106,6 +106,15 @@ def convV : SAttr → Val
 
 def nsV (g : String) : Val := .list [nm "zap.Namespace", .bytes (sbytes g)]
 
+/-- the insertion loop shared by `WithAttrs` and `Handle`: the pending groups are opened (as namespaces) right before
+    the first field that is not `zap.Skip()`, once -/
+def attrStep (gs : List Bytes) (acc : List Val × Bool) (a : SAttr) : List Val × Bool :=
+  if !acc.2 && !gs.isEmpty && !isSkip (convert a) then
+    (acc.1 ++ gs.map (fun g => Val.list [nm "zap.Namespace", .bytes g]) ++ [convV a], true)
+  else (acc.1 ++ [convV a], acc.2)
+
+def withAttrsSpec (gs : List Bytes) (as : List SAttr) : List Val × Bool := as.foldl (attrStep gs) ([], false)
+
 mutual
 /-- nesting depth: the fuel the recursive functions need -/
 def dep : SAttr → Nat
